@@ -132,7 +132,12 @@ func runFallback(id string, parts []string) string {
 	defer tl.Close()
 
 	port := tl.Addr().(*net.TCPAddr).Port
-	u, err := upstream.NewUpstream(fmt.Sprintf("udp://127.0.0.1:%d", port), upstream.Opt{})
+	addr, opt := fmt.Sprintf("udp://127.0.0.1:%d", port), upstream.Opt{}
+	if f["da"] == "1" {
+		// the URL names another host (nothing listens there); dial_addr is the server: BOTH legs must go to dial_addr
+		addr, opt = fmt.Sprintf("udp://127.0.0.2:%d", port), upstream.Opt{DialAddr: fmt.Sprintf("127.0.0.1:%d", port)}
+	}
+	u, err := upstream.NewUpstream(addr, opt)
 	if err != nil {
 		return "HARNESS-ERROR " + err.Error()
 	}
